@@ -98,7 +98,7 @@ func writeEvidence(prop, tier string, seed uint64, c *Cover, assumptions, truste
 	}
 	ev := Evidence{
 		PropertyID: prop, Tier: tier, Seed: int64(seed & 0x7fffffffffffffff), Level: "proof",
-		Coverage: cov, Assumptions: assumptions,
+		Coverage: cov, Assumptions: nonNil(assumptions),
 		WallS: time.Since(start).Seconds(), Violations: violations,
 	}
 	b, err := json.MarshalIndent(ev, "", " ")
